@@ -1194,6 +1194,8 @@ def run(ctx: Ctx):
         ctx.log(f"translation failed (continuing with the FALLBACK model): {ex}")
         gen = {"Gen_C05.v": tr.FALLBACK}
     ctx.cov["src_cfg"] = gen["Gen_C05.v"].strip().splitlines()[-1]
+    # recognisers that knew the code only in its normal form (helpers inlined, aliases substituted ...): which rewrites
+    ctx.cov["translator_normal_form_used"] = [f"{w}: {', '.join(rw)}" for w, rw in tr.NORMAL_FORM_USED][:12]
     set_flags(gen["Gen_C05.v"])
     import time
     t0 = time.time()
